@@ -53,7 +53,7 @@ Example C02_nonvacuous :
   let o := {| o_helo := fun _ => true;
               o_addr := fun _ arg => match arg with 60%N :: c :: _ => AP_ok [c] None RLocal | _ => AP_nobracket end;
               o_ext := fun _ => Ext_ok 0 0 None; o_relay := 0%Z; o_mx := fun _ => 0; o_qq := fun _ => QQ_ok;
-              o_databytes := 0%N; o_liphost := []; o_check2822 := false; o_trace := fun _ _ _ _ _ => [88; 10]%N |} in
+              o_databytes := 0%N; o_liphost := []; o_check2822 := false; o_authperm := false; o_auth := fun _ => Auth_multi; o_trace := fun _ _ _ _ _ _ => [88; 10]%N |} in
   filter (fun e => match e with Handoff _ _ => true | _ => false end)
     (run_session o [ [72;69;76;79;32;120;13;10]; [77;65;73;76;32;70;82;79;77;58;60;97;62;13;10];
                      [82;67;80;84;32;84;79;58;60;98;62;13;10]; [68;65;84;65;13;10];
